@@ -2,10 +2,10 @@
 # run every claimed quick check; print only those that do not exit 0
 cd /verif
 fail=0
-for p in C01 C02 C03 C04 C05 C06 C08 C09 C10 C11 C12 C14 C15 C16 C18 C19 C20; do
+for p in $(/venv/bin/python -c "import json;print(' '.join(c['property_id'] for c in json.load(open('/verif/MANIFEST.json'))['checks']))"); do
   /venv/bin/python -m jv.check $p > /var/tmp/runall_$p.txt 2>&1
   rc=$?
   if [ $rc -ne 0 ]; then echo "$p rc=$rc"; grep -E "VIOLATION|ANALYSIS-ERROR|: rule " /var/tmp/runall_$p.txt | head -5; fail=1; fi
   rm -f /var/tmp/runall_$p.txt
 done
-[ $fail -eq 0 ] && echo "all 17 quick checks exit 0"
+[ $fail -eq 0 ] && echo "all quick checks exit 0"
